@@ -206,6 +206,7 @@ fn sweep(cx: &Cx, phase: &str, l: u64, acc: &mut Acc, f: &(dyn Fn(&Case, &mut Ac
             headers: vec![],
             plan: plan.clone(),
             faults: vec![],
+            tail: vec![],
         },
         req: ReqSpec::get().with("range", range),
     };
